@@ -59,7 +59,8 @@ Reason(r) ==
     [] r.ev = "create" ->
         LET blk == CreateBlock(s, TxMap(r.txns), Par(r), locked, r.maxBlock, r.maxTxns)
             exp == [i \in DOMAIN blk |-> blk[i].hash]
-        IN IF (r.res = "ok") # (Len(exp) > 0) THEN "C05:block-or-none"
+        IN IF r.res = "panic" THEN "C05:block-creation-panics"
+           ELSE IF (r.res = "ok") # (Len(exp) > 0) THEN "C05:block-or-none"
            ELSE IF r.res = "ok" /\ r.hashes # exp THEN
                   (IF Rng(r.hashes) = Rng(exp) THEN "C05:order"
                    ELSE IF Rng(r.hashes) \subseteq Rng(exp) THEN "C05:conflict-choice-dropped"
@@ -69,7 +70,8 @@ Reason(r) ==
     [] r.ev = "create_execute" ->      \* Visor.CreateAndExecuteBlock: the same selection, executed in the same commit
         LET blk == CreateBlock(s, TxMap(r.txns), Par(r), locked, r.maxBlock, r.maxTxns)
             exp == [i \in DOMAIN blk |-> blk[i].hash]
-        IN IF (r.res = "ok") # (Len(exp) > 0) THEN "C05:block-or-none"
+        IN IF r.res = "panic" THEN "C05:block-creation-panics"
+           ELSE IF (r.res = "ok") # (Len(exp) > 0) THEN "C05:block-or-none"
            ELSE IF r.res = "ok" /\ r.hashes # exp THEN
                   (IF Rng(r.hashes) = Rng(exp) THEN "C05:order"
                    ELSE IF Rng(r.hashes) \subseteq Rng(exp) THEN "C05:conflict-choice-dropped"
